@@ -301,9 +301,7 @@ def anti_clobber_dir_path(dir_path, suffix='.d'):
         if os.path.isfile(test_path):
             parts[index] += suffix
 
-            return os.sep.join(parts)
-
-    return dir_path
+    return os.sep.join(parts)
 
 
 def parse_content_disposition(text):
